@@ -95,8 +95,15 @@ inductive Res where
   | sideEffect -- `Run` changed the register file directly, behind the write-back path
   deriving Repr, DecidableEq
 
+/-- an `Execution` the write-back stage handles the way `toOutcome` reads it: nothing written
+behind its back, a register result never accompanied by a store (`if RegisterChange {…} else if
+MemoryChange {…}` would drop the store), and `(x0, v)` only with `v = 0` (write-back stores blindly) -/
+def wfExe (e : Gen.Execution) : Bool :=
+  e.DirectWrites.isEmpty &&
+    (!e.RegisterChange || ((e.Register != 0 || e.RegisterValue == 0) && !e.MemoryChange))
+
 def resOfGen : M Gen.Execution → Res
-  | .ok e => if e.DirectWrites = [] then .ok (toOutcome e) else .sideEffect
+  | .ok e => if wfExe e then .ok (toOutcome e) else .sideEffect
   | .error (.err _) => .err
   | .error (.panic _) => .panic
 
